@@ -325,6 +325,18 @@ theorem C16_reachable_info_total {m : SeqMod} (h : WF m) (ho : OrdWF m) (hist : 
       InfoOk m (frameInfo m s') ∧ (frameInfo m s').row < (frameInfo m s').numRows ∧ 0 < s'.ftBpm :=
   ⟨(C16_reachable_total h ho hist s hc hr he).1, C16_reachable_info h hist s hc hr he⟩
 
+/-- **C16_next_order_keeps_loop_counter**: `next_order` — the pattern-loop reset of the flow modes with
+`FLOW_LOOP_PATTERN_RESET` included: it clears `f->loop_count`, the pattern-loop count of `struct flow_control`,
+which is not the module loop counter `p->loop_count` — leaves the module loop counter, the sequence, speed and
+tempo alone; and `next_row` never lowers the loop counter either.  (With `C16_loop_monotone_run` /
+`C16_loop_monotone_api`: over runs of any length, through any number of wraps, in every flow mode.) -/
+theorem C16_next_order_keeps_loop_counter {m : SeqMod} (h : WF m) {s s' : St} (hp : Playing m s) :
+    (nextOrder m s = some s' → s'.loopCount = s.loopCount ∧ s'.sequence = s.sequence ∧ s'.speed = s.speed ∧ s'.bpm = s.bpm) ∧
+    (nextRow m s = some s' → s'.loopCount = s.loopCount) := by
+  refine ⟨fun hn => ?_, fun hn => (nextRow_spec h.facts hp hn).2.2.1⟩
+  obtain ⟨_, _, _, _, _, _, _, sa⟩ := nextOrder_spec h.facts hp.core.seq (by have := hp.core.ord; omega) hp.core.jumpline hn
+  exact ⟨sa.2.2.2.2.2.2, sa.1, sa.2.1, sa.2.2.1⟩
+
 /-! ### A pattern-loop jump cannot leave the pattern
 
 The loop target (`f->loop[chn].start`, or the global `f->loop_start`) is a row number recorded in
@@ -909,6 +921,17 @@ theorem C16_ticksize (freq tfN tfD rrN rrD bpm : Int) (mono bit8 : Bool) :
   · rw [hb]; simp only [maxFramesize, sizeofInt16]; rcases hf with h | h | h <;> rw [h] <;> omega
   · simp only [buf32Bytes, maxFramesize, sizeofInt32]; split <;> omega
 
+/-- **C16_cap_constants**: the three frame-size caps as the C writes them (divisors of `XMP_MAX_FRAMESIZE`
+extracted from `libxmp_mixer_prepare` — the tested and the substituted value — and from
+`xmp_set_tempo_factor` on every run) all leave room for the widest frame: 4 bytes (16-bit stereo) times the cap
+fit `XMP_MAX_FRAMESIZE`, and the cap that accepts a tempo factor is not above the one the mixer enforces on
+every tick.  A cap written in samples instead of bytes (`/ 2`) at either place falsifies this and with it
+`C16_ticksize` / `C16_framesize_bound`, for every rate, format, tempo and time factor — also those only reachable
+by a tempo change through position control or a restart of the player at a higher rate. -/
+theorem C16_cap_constants :
+    capTicks * 4 ≤ maxFramesize ∧ capSetTicks * 4 ≤ maxFramesize ∧ capFactorTicks ≤ capTicks ∧ capSetTicks ≤ capTicks :=
+  ⟨cap_bytes.1, cap_bytes.2.1, cap_bytes.2.2, by rw [capSetTicks_eq, capTicks_eq]; omega⟩
+
 /-- **C16_framesize_bound** (full strength since /repo ec96084 caps the tick size at
 `XMP_MAX_FRAMESIZE / 4` frames): for all inputs `buffer_size ≤ XMP_MAX_FRAMESIZE`. -/
 theorem C16_framesize_bound (freq tfN tfD rrN rrD bpm : Int) (mono bit8 : Bool) :
@@ -1001,12 +1024,13 @@ theorem C16_tempo_factor_no_clamp (freq rrN rrD bpm vN vD n d : Int) (hvd : 0 < 
   · rw [if_pos hv] at h; cases h
   rw [if_neg hv] at h
   simp only at h
-  by_cases ht : getTicksize freq (vN * 10) vD rrN rrD bpm < 0 ∨ getTicksize freq (vN * 10) vD rrN rrD bpm > capTicks
+  by_cases ht : getTicksize freq (vN * 10) vD rrN rrD bpm < 0 ∨ getTicksize freq (vN * 10) vD rrN rrD bpm > capFactorTicks
   · rw [if_pos ht] at h; cases h
   rw [if_neg ht] at h
   simp only [Option.some.injEq, Prod.mk.injEq] at h
   obtain ⟨hn, hd⟩ := h
   subst hn; subst hd
+  have hcf := cap_bytes.2.2      -- the cap of xmp_set_tempo_factor is not above the one of libxmp_mixer_prepare
   refine ⟨rfl, rfl, by omega, fun bpm' hb => ?_⟩
   have a := getTicksize_antitone freq (vN * 10) vD rrN rrD bpm bpm' hvd hrd hb (by omega)
   have r := getTicksize_range freq (vN * 10) vD rrN rrD bpm'
